@@ -1,72 +1,104 @@
-/-! C10: the three receive modes of `UnixCmsg::recv` over a kernel socket with an O_NONBLOCK flag. -/
+import IpcModel.Gen
+/-! C10: the three receive modes of `UnixCmsg::recv` over a kernel socket with an O_NONBLOCK flag.
+
+The kernel socket carries *first packets*; each stands for a message (`tag`) whose follow-up fragments are either all
+queued on the message's dedicated socket already (`complete = true`: the send has returned, or at least transmitted
+everything) or not yet (`complete = false`: a sender is in the middle of the send).  Follow-ups are always read in
+blocking mode, whatever the mode of the call, so a started message is waited for (`Res.waitsSender`).
+
+`call` returns, next to the result and the new kernel state, the system calls issued on the channel's descriptor; the
+harness compares them with the interposed trace of the real crate. -/
 namespace Timed
 
-inductive Mode | blocking | nonblocking | timeout (ms : Nat)
+inductive Mode | blocking | nonblocking | timeout (micros : Nat)
 deriving Repr, DecidableEq
 
 structure K where
-  queue : List Nat        -- complete first packets queued (message tags)
-  peerAlive : Bool
-  nonblock : Bool         -- O_NONBLOCK of the open file description
+  queue : List (Nat × Bool)   -- first packets queued: (message tag, all follow-up fragments already queued)
+  peerAlive : Bool            -- some sender handle exists
+  nonblock : Bool             -- O_NONBLOCK of the open file description
 deriving Repr, DecidableEq
 
-inductive Res | msg (t : Nat) | empty | disconnected | blocks
+inductive Res
+  | msg (t : Nat) | empty | disconnected
+  | blocks                    -- waits on the channel socket
+  | waitsSender (t : Nat)     -- first fragment taken, waits (blocking) for the sender to finish message `t`
 deriving Repr, DecidableEq
 
-/-- kernel recvmsg -/
+inductive Sys | setNB | clearNB | poll (ms : Int) | recvmsg
+deriving Repr, DecidableEq
+
+/-- kernel recvmsg on the channel socket followed by the (blocking) reassembly of `recv` -/
 def recvmsg (k : K) : Res × K :=
   match k.queue with
-  | t :: q => (.msg t, { k with queue := q })
+  | (t, c) :: q => (if c then .msg t else .waitsSender t, { k with queue := q })
   | [] => if !k.peerAlive then (.disconnected, k)        -- returns 0
           else if k.nonblock then (.empty, k)            -- EAGAIN
           else (.blocks, k)
 
+/-- the argument handed to poll(2) for a `Duration` of `micros` microseconds, regenerated from the source:
+`duration.as_<unit>().try_into().unwrap_or(-1)` with a C `int` target -/
+def pollArg (micros : Nat) : Int :=
+  let v := micros * Gen.pollUnitMul / Gen.pollUnitDiv
+  if v < 2 ^ 31 then (v : Int) else -1
+
 /-- `pollTimedOut`: the kernel's answer to poll(); it may say "timed out" only if nothing was ready for the whole wait -/
-def recvFirst (k : K) (m : Mode) (pollTimedOut : Bool) : Res × K :=
+def call (k : K) (m : Mode) (pollTimedOut : Bool) : List Sys × Res × K :=
   match m with
-  | .blocking => recvmsg k
+  | .blocking => let (r, k') := recvmsg k; ([.recvmsg], r, k')
   | .nonblocking =>
     let k1 := { k with nonblock := true }                 -- fcntl(F_SETFL, O_NONBLOCK)
     let (r, k2) := recvmsg k1
-    (r, { k2 with nonblock := false })                    -- fcntl(F_SETFL, 0)
-  | .timeout _ =>
-    if pollTimedOut then (.empty, k)                      -- Errno(EAGAIN)
-    else recvmsg k
+    ([.setNB, .recvmsg, .clearNB], r, { k2 with nonblock := false })   -- fcntl(F_SETFL, 0) on every outcome
+  | .timeout us =>
+    if pollTimedOut then ([.poll (pollArg us)], .empty, k)              -- Errno(EAGAIN)
+    else let (r, k') := recvmsg k; ([.poll (pollArg us), .recvmsg], r, k')
+
+def recvFirst (k : K) (m : Mode) (pollTimedOut : Bool) : Res × K := (call k m pollTimedOut).2
 
 def pollConsistent (k : K) (pollTimedOut : Bool) : Prop := pollTimedOut = true → k.queue = [] ∧ k.peerAlive = true
 
 /-- **C10_flag**: whatever the mode and outcome, the description is left in blocking mode -/
 theorem flag_restored (k : K) (m : Mode) (b : Bool) (h : k.nonblock = false) : (recvFirst k m b).2.nonblock = false := by
-  cases m <;> simp [recvFirst, recvmsg] <;> (repeat' split) <;> simp_all
+  cases m <;> simp [recvFirst, call, recvmsg] <;> (repeat' split) <;> simp_all
 
-/-- **C10_try**: try_recv never blocks; head message if one is queued, `empty` iff idle and connected, `disconnected` iff finished -/
+/-- **C10_try**: try_recv never waits on the channel socket; head message if one is completely queued, `empty` iff idle
+and connected, `disconnected` iff finished; it waits for a sender only when that sender is in the middle of the head message -/
 theorem try_outcome (k : K) (b : Bool) :
     (recvFirst k .nonblocking b).1 ≠ .blocks ∧
-    (∀ t q, k.queue = t :: q → (recvFirst k .nonblocking b).1 = .msg t) ∧
+    (∀ t q, k.queue = (t, true) :: q → (recvFirst k .nonblocking b).1 = .msg t) ∧
     (k.queue = [] → k.peerAlive = true → (recvFirst k .nonblocking b).1 = .empty) ∧
-    (k.queue = [] → k.peerAlive = false → (recvFirst k .nonblocking b).1 = .disconnected) := by
-  refine ⟨?_, ?_, ?_, ?_⟩
-  · simp [recvFirst, recvmsg]; (repeat' split) <;> simp_all
-  · intro t q hq; simp [recvFirst, recvmsg, hq]
-  · intro hq hp; simp [recvFirst, recvmsg, hq, hp]
-  · intro hq hp; simp [recvFirst, recvmsg, hq, hp]
+    (k.queue = [] → k.peerAlive = false → (recvFirst k .nonblocking b).1 = .disconnected) ∧
+    (∀ t, (recvFirst k .nonblocking b).1 = .waitsSender t → ∃ q, k.queue = (t, false) :: q) := by
+  refine ⟨?_, ?_, ?_, ?_, ?_⟩
+  · simp [recvFirst, call, recvmsg]; (repeat' split) <;> simp_all
+  · intro t q hq; simp [recvFirst, call, recvmsg, hq]
+  · intro hq hp; simp [recvFirst, call, recvmsg, hq, hp]
+  · intro hq hp; simp [recvFirst, call, recvmsg, hq, hp]
+  · intro t
+    simp only [recvFirst, call, recvmsg]
+    cases hq : k.queue with
+    | nil => simp; (repeat' split) <;> simp_all
+    | cons hd q =>
+      obtain ⟨t', c⟩ := hd
+      cases c <;> simp
 
 /-- **C10_timeout**: `empty` only when poll timed out (so nothing was there for the whole wait); a message or closure present is returned -/
-theorem timeout_outcome (k : K) (ms : Nat) (b : Bool) (hk : k.nonblock = false) (hc : pollConsistent k b) :
-    ((recvFirst k (.timeout ms) b).1 = .empty → b = true) ∧
-    (∀ t q, k.queue = t :: q → (recvFirst k (.timeout ms) b).1 = .msg t) ∧
-    (k.queue = [] → k.peerAlive = false → (recvFirst k (.timeout ms) b).1 = .disconnected) := by
+theorem timeout_outcome (k : K) (us : Nat) (b : Bool) (hk : k.nonblock = false) (hc : pollConsistent k b) :
+    ((recvFirst k (.timeout us) b).1 = .empty → b = true) ∧
+    (∀ t q, k.queue = (t, true) :: q → (recvFirst k (.timeout us) b).1 = .msg t) ∧
+    (k.queue = [] → k.peerAlive = false → (recvFirst k (.timeout us) b).1 = .disconnected) := by
   refine ⟨?_, ?_, ?_⟩
   · cases b
-    · simp [recvFirst, recvmsg, hk]; (repeat' split) <;> simp_all
+    · simp [recvFirst, call, recvmsg, hk]; (repeat' split) <;> simp_all
     · simp
   · intro t q hq
     cases b
-    · simp [recvFirst, recvmsg, hq]
+    · simp [recvFirst, call, recvmsg, hq]
     · have := hc rfl; simp [hq] at this
   · intro hq hp
     cases b
-    · simp [recvFirst, recvmsg, hq, hp]
+    · simp [recvFirst, call, recvmsg, hq, hp]
     · have := hc rfl; simp [hp] at this
 
 theorem flag_after_calls (k : K) (calls : List (Mode × Bool)) (h : k.nonblock = false) :
@@ -81,6 +113,49 @@ theorem later_blocking_blocks (k : K) (calls : List (Mode × Bool)) (h : k.nonbl
     k'.queue = [] → k'.peerAlive = true → (recvFirst k' .blocking false).1 = .blocks := by
   intro k' hq hp
   have hflag : k'.nonblock = false := flag_after_calls k calls h
-  simp [recvFirst, recvmsg, hq, hp, hflag]
+  simp [recvFirst, call, recvmsg, hq, hp, hflag]
+
+/-- no message is lost or reordered by any mixture of the three calls: the tags returned (delivered or being waited for),
+in call order, followed by what is still queued, are the original queue -/
+def tagOf : Res → List Nat
+  | .msg t => [t] | .waitsSender t => [t] | _ => []
+
+theorem queue_conserved (k : K) (m : Mode) (b : Bool) :
+    tagOf (recvFirst k m b).1 ++ (recvFirst k m b).2.queue.map Prod.fst = k.queue.map Prod.fst := by
+  have hr : tagOf (recvmsg k).1 ++ (recvmsg k).2.queue.map Prod.fst = k.queue.map Prod.fst := by
+    unfold recvmsg
+    cases hq : k.queue with
+    | nil => simp only []; (repeat' split) <;> simp_all [tagOf]
+    | cons hd q => obtain ⟨t, c⟩ := hd; cases c <;> simp [tagOf]
+  have hn : tagOf (recvmsg { k with nonblock := true }).1 ++ (recvmsg { k with nonblock := true }).2.queue.map Prod.fst
+      = k.queue.map Prod.fst := by
+    unfold recvmsg
+    cases hq : k.queue with
+    | nil => simp only []; (repeat' split) <;> simp_all [tagOf]
+    | cons hd q => obtain ⟨t, c⟩ := hd; cases c <;> simp [tagOf]
+  cases m with
+  | blocking => simpa [recvFirst, call] using hr
+  | nonblocking => simpa [recvFirst, call] using hn
+  | timeout us =>
+    cases b
+    · simpa [recvFirst, call] using hr
+    · simp [recvFirst, call, tagOf]
+
+/-- the system calls issued: the flag is set only around one recvmsg, and recvmsg runs at most once per call -/
+theorem trace_shape (k : K) (m : Mode) (b : Bool) :
+    (call k m b).1 = [.recvmsg] ∨ (call k m b).1 = [.setNB, .recvmsg, .clearNB] ∨
+    (∃ us, m = .timeout us ∧ ((call k m b).1 = [.poll (pollArg us)] ∨ (call k m b).1 = [.poll (pollArg us), .recvmsg])) := by
+  cases m <;> simp [call]
+  split <;> simp
+
+/-- `try_recv_timeout(d)`: the wait handed to the kernel is `d` rounded down to whole milliseconds, or unbounded -/
+theorem pollArg_granularity (us : Nat) (hmul : Gen.pollUnitMul = 1) (hdiv : Gen.pollUnitDiv = 1000) :
+    pollArg us = -1 ∨ (0 ≤ pollArg us ∧ pollArg us * 1000 ≤ (us : Int) ∧ (us : Int) < (pollArg us + 1) * 1000) := by
+  unfold pollArg
+  simp only [hmul, hdiv, Nat.mul_one]
+  split
+  · right
+    refine ⟨by omega, ?_, ?_⟩ <;> omega
+  · left; rfl
 
 end Timed
